@@ -1,0 +1,11 @@
+//go:build !verif
+
+// Package verifhook holds the instrumentation points used by the /verif
+// runtime monitors. Without the `verif` build tag every hook is a no-op.
+package verifhook
+
+func EOFRead() {}
+
+func Token() {}
+
+func Exit(code int) {}
